@@ -620,7 +620,9 @@ class Frags:
         if not isinstance(pat, list):
             private = {t.id for c in ast.walk(pat) if isinstance(c, ast.comprehension) for t in ast.walk(c.target) if isinstance(t, ast.Name)}
         trial = dict(self.b)
-        hit = find_frag(within if within is not None else self.fn, pat, self.fn, trial)
+        # a scope that is not part of the function (a helper's body from reach()) brings its own locals
+        scope_fn = within if within is not None and isinstance(within, ast.Module) else self.fn
+        hit = find_frag(within if within is not None else self.fn, pat, scope_fn, trial)
         if hit is not None:
             self.b.update({k: v for k, v in trial.items() if v not in private})
         return hit
@@ -846,14 +848,14 @@ def inline_helpers(fn, resolve, depth=2):
 
     changed = [False]
 
-    def expand_block(stmts, level):
+    def expand_block(stmts, level, loop_body=False):
         out = []
-        for st in stmts:
+        for idx_, st in enumerate(stmts):
             # recurse into compound statements first
             for fld in ("body", "orelse", "finalbody"):
                 b = getattr(st, fld, None)
                 if isinstance(b, list) and b and isinstance(b[0], ast.stmt):
-                    setattr(st, fld, expand_block(b, level))
+                    setattr(st, fld, expand_block(b, level, loop_body=isinstance(st, (ast.For, ast.While)) and fld == "body"))
             for hdl in getattr(st, "handlers", []) or []:
                 hdl.body = expand_block(hdl.body, level)
             for cs in getattr(st, "cases", []) or []:
@@ -872,6 +874,24 @@ def inline_helpers(fn, resolve, depth=2):
                 if r is not None:
                     h, recv = r
                     shape = _helper_shape(h)
+                    if shape is None and kind == "stmt" and loop_body and idx_ == len(stmts) - 1:
+                        # the helper is the whole tail of a loop body: its bare `return`s are the loop's `continue`s
+                        hb = [s_ for s_ in h.body if not (isinstance(s_, ast.Expr) and isinstance(s_.value, ast.Constant))]
+                        rets_ = [n_ for s_ in hb for n_ in ast.walk(s_) if isinstance(n_, ast.Return)]
+                        inner_loops = any(isinstance(n_, (ast.For, ast.While)) and any(isinstance(r_, ast.Return) for r_ in ast.walk(n_)) for s_ in hb for n_ in ast.walk(s_))
+                        if hb and all(r_.value is None for r_ in rets_) and not inner_loops and not h.args.vararg and not h.args.kwarg and not any(isinstance(n_, FuncTypes + (ast.Lambda, ast.Yield, ast.YieldFrom)) for s_ in hb for n_ in ast.walk(s_)):
+                            b = bind(h, call, recv)
+                            if b is not None:
+                                sub, pre = b
+
+                                class RC(ast.NodeTransformer):
+                                    def visit_Return(self, n_):
+                                        return ast.copy_location(ast.Continue(), n_)
+
+                                body = [at(RC().visit(subst(s_, sub)), st) for s_ in hb]
+                                out += [at(p_, st) for p_ in pre] + body
+                                changed[0] = True
+                                continue
                     if shape is None and kind == "return":
                         # `return helper(..)`: every return of the helper is a return of the caller
                         hb = [s_ for s_ in h.body if not (isinstance(s_, ast.Expr) and isinstance(s_.value, ast.Constant))]
@@ -1008,4 +1028,48 @@ def value_arms(fn, subject):
                 vals = [p.value for p in pats if isinstance(p, ast.MatchValue)]
             for v in vals:
                 out.setdefault(ast.unparse(v), []).append(st)
+    return out
+
+
+def reach(node, resolve, depth=2):
+    """`node` plus the bodies of the private helpers called inside it (parameters replaced by the arguments, helper
+    locals kept): the scope in which a rule looks for reference fragments when it does not matter whether a piece of
+    the computation sits in the function itself or in a helper with early returns (which cannot be inlined)."""
+    out = [node]
+    frontier = [node]
+    seen = set()
+    for _ in range(depth):
+        nxt = []
+        for nd in frontier:
+            for c in (x for x in ast.walk(nd) if isinstance(x, ast.Call)):
+                r = resolve(c)
+                if r is None or r[0].name in seen:
+                    continue
+                h, recv = r
+                seen.add(h.name)
+                params = [a.arg for a in h.args.posonlyargs + h.args.args]
+                args = ([recv] if recv is not None else []) + list(c.args)
+                sub = {p: a for p, a in zip(params, args) if _simple_arg(a)}
+                for k in c.keywords:
+                    if k.arg in params and _simple_arg(k.value):
+                        sub[k.arg] = k.value
+
+                class S(ast.NodeTransformer):
+                    def visit_Name(self, x):
+                        if x.id in sub:
+                            r_ = clone(sub[x.id])
+                            if isinstance(r_, ast.Name):
+                                r_.ctx = x.ctx
+                            return ast.copy_location(r_, x)
+                        return x
+
+                body = ast.Module(body=[S().visit(clone(s_)) for s_ in h.body], type_ignores=[])
+                ast.fix_missing_locations(body)
+                for n_ in ast.walk(body):
+                    for ch in ast.iter_child_nodes(n_):
+                        ch._parent = n_
+                body._parent = None
+                out.append(body)
+                nxt.append(body)
+        frontier = nxt
     return out
